@@ -195,6 +195,8 @@ var c20Pool = []string{"$a + 1", "[$a + 1, $a]", "[$a + $a, $a, $b]", "$a", "$a 
 	// locals keep every digit: integers beyond 2^53 and their successors
 	"$a = [x, 1]", "$a = [1, k]", "$b = [$a, x]", "$a = [x, 1], $a = [k], $a", // locals holding lists, re-bound to other lists
 	"$a = 7, this.$a", "$b = x, [this.$b, $b, this.x]", "$a = $a, this.$a",
+	// data entries named like builtins are entries all the same when read through this.
+	"this.len", "[this.len, this.year, this.x]", "$a = this.len, [$a, this.$a]", "this.year ?? 0", "$b = this.max ?? x",
 	"$a = 9007199254740993", "$b = $a + 1, [$a, $b, $a == $b]", "$a = 1234567890123456789, $a + 0", "[$a == 9007199254740993, $a == 9007199254740992]"}
 
 var c20Alphabet = []runnerOp{
@@ -283,14 +285,14 @@ func TestC20Exhaustive(t *testing.T) {
 
 // TestC20Random: longer histories with the full formula pool.
 func TestC20Random(t *testing.T) {
-	run := h.Begin("C20", "random", "rapid: histories of 1-14 operations drawn from the same operation kinds with random keys {x, k, $a, $b, __v, $__v}, random integer values (1 in 5 beyond 2^53) or strings that look like timestamps / numbers / keywords, and the 29-formula pool (locals are entries of the data map: also read back through this.$name within the same evaluation); same oracle; non-trivial as in the exhaustive part; distinct by history")
+	run := h.Begin("C20", "random", "rapid: histories of 1-14 operations drawn from the same operation kinds with random keys {x, k, $a, $b, __v, $__v, len, year}, random integer values (1 in 5 beyond 2^53) or strings that look like timestamps / numbers / keywords, and the 34-formula pool (locals are entries of the data map: also read back through this.$name within the same evaluation); same oracle; non-trivial as in the exhaustive part; distinct by history")
 	defer run.End(t)
 	h.RapidSetup(h.N(6000, 2000000), "c20rand")
 	rapid.Check(t, func(rt *rapid.T) {
 		n := rapid.IntRange(1, 14).Draw(rt, "n")
 		var hh history
 		for i := 0; i < n; i++ {
-			key := rapid.SampledFrom([]string{"x", "k", "$a", "$b", "x", "$a", "__v", "$__v"}).Draw(rt, "key")
+			key := rapid.SampledFrom([]string{"x", "k", "$a", "$b", "x", "$a", "__v", "$__v", "len", "year"}).Draw(rt, "key")
 			val := int64(rapid.IntRange(0, 99).Draw(rt, "v"))
 			if rapid.IntRange(0, 4).Draw(rt, "big?") == 0 {
 				val = rapid.SampledFrom([]int64{9007199254740993, -9007199254740993, 1234567890123456789, 9223372036854775807, 4611686018427387905}).Draw(rt, "bigv")
